@@ -3,7 +3,7 @@ From Coq Require Import NArith ZArith List Bool String.
 From ZV.Codec Require Import Bytes XXH64 Fse Huf Block Frame.
 From ZV.Gen Require Import Gen_Tables Gen_C03.
 From ZV.Safety Require Import DDictHashSet DDictHashSetProofs RTotal ROutput RBound RCopy REntropy NoProgress NoProgressProofs Witnesses Consts LitBuffer LitBufferProofs RingBuffer RingBufferProofs
-  Continuity ContinuityProofs CtxPointers CtxPointersProofs DictOwner DictOwnerProofs.
+  Continuity ContinuityProofs CtxPointers CtxPointersProofs DictOwner DictOwnerProofs LegacyWalk LegacyWalkProofs SkipSize SkipSizeProofs.
 Import ListNotations.
 Local Open Scope N_scope.
 
@@ -333,6 +333,73 @@ Example C03_dict_owner_example :
   snd (dstep true (fold_left (fun s o => fst (dstep true s o)) [DCreate 1; DCreate 2; DRef 1 7; DCopy 2 1; DFree 1] d_init) (DUse 2)) = DExt 7 /\
   snd (dstep true (fold_left (fun s o => fst (dstep true s o)) [DCreate 1; DCreate 2; DLoad 1; DCopy 2 1; DFree 2] d_init) (DUse 1)) = DLocal 0.
 Proof. exact dict_owner_example. Qed.
+
+(* ---- the legacy frame walkers (ZSTDv05/v06/v07_findFrameSizeInfoLegacy) on any bytes (round 3) ---- *)
+(* the walker's loop leaves through its own exits on every byte string (each block consumes its 3-byte header) *)
+Theorem C03_legacy_walk_no_fuel_error : forall v src, walk v src <> WErr WFuel.
+Proof. exact walk_no_fuel_error. Qed.
+Print Assumptions C03_legacy_walk_no_fuel_error.
+
+(* what ZSTD_findFrameCompressedSize reports for a legacy frame lies inside the input (and covers a header and an end mark) *)
+Theorem C03_legacy_walk_csize_inside : forall v src cs bd bl, walk v src = WOk cs bd bl -> 8 <= cs <= len src.
+Proof. exact walk_csize_inside. Qed.
+Print Assumptions C03_legacy_walk_csize_inside.
+
+(* the bound covers every block-by-block assignment of regenerated sizes that the decoders allow: a raw block its size, an RLE block (v0.7) its
+   size field, a compressed block at most 128 KiB (the decoder-side limit of 39f3df0 / f1730e0) *)
+Theorem C03_legacy_walk_bound_sound : forall v src cs bd bl rs,
+  walk v src = WOk cs bd bl -> Forall2 (allowed true v) bl rs -> sumN rs <= bd.
+Proof. exact walk_bound_sound. Qed.
+Print Assumptions C03_legacy_walk_bound_sound.
+
+(* necessity of that decoder-side limit: the 22-byte v0.7 frame of C06-legacy-compressed-block-exceeds-bound (one compressed block of 10 bytes, bound
+   131072) regenerated 131075 bytes in the decoder without the limit *)
+Theorem C03_legacy_walk_bound_needs_block_limit :
+  walk V7 bigmatch_v07 = WOk 22 131072 [(0, 10, 10)] /\
+  Forall2 (allowed false V7) [(0, 10, 10)] [131075] /\ 131072 < sumN [131075] /\
+  ~ Forall2 (allowed true V7) [(0, 10, 10)] [131075].
+Proof. exact walk_bound_needs_block_limit. Qed.
+Print Assumptions C03_legacy_walk_bound_needs_block_limit.
+
+Example C03_legacy_walk_examples :
+  walk V5 [37; 181; 47; 253; 0;  64; 0; 3; 97; 98; 99;  192; 0; 0] = WOk 14 131072 [(1, 3, 3)] /\
+  walk V6 [38; 181; 47; 253; 64; 3;  64; 0; 3; 97; 98; 99;  192; 0; 0] = WOk 15 131072 [(1, 3, 3)] /\
+  walk V7 [39; 181; 47; 253; 0; 0;  64; 0; 0;  64; 0; 3; 97; 98; 99;  192; 0; 0] = WOk 18 262144 [(1, 0, 0); (1, 3, 3)] /\
+  walk V6 [38; 181; 47; 253; 0;  64; 0; 0;  64; 0; 3; 97; 98; 99;  192; 0; 0] = WOk 8 0 [] /\
+  walk V7 [39; 181; 47; 253; 0; 0;  64; 0; 9; 97] = WErr WSrcSize /\
+  walk V7 [40; 181; 47; 253; 0; 0;  192; 0; 0] = WErr WPrefix.
+Proof. exact walk_examples. Qed.
+
+(* ---- skippable frames: the size arithmetic for every width of size_t (round 3; the check builds 64-bit libraries only) ---- *)
+(* W = bits of size_t (32 and up), u = the 32-bit size field, n = input length: an accepted skippable frame is exactly 8 + u bytes, at least its header, at
+   most the input: the frame loops (ZSTD_decompressMultiFrame, ZSTD_findDecompressedSize, ZSTD_decompressBound, ZSTD_decompressionMargin) advance and stay inside *)
+Theorem C03_skippable_size_exact : forall W u n s, 32 <= W -> u < 2 ^ 32 ->
+  skip_size W true u n = SOk s -> s = SKIPHDR + u /\ SKIPHDR <= s <= n.
+Proof. exact skip_size_exact. Qed.
+Print Assumptions C03_skippable_size_exact.
+
+(* necessity of the wrap test on a 32-bit size_t: without it the field 0xFFFFFFF8 is a frame of 0 bytes (a loop that never advances), 0xFFFFFFFF one of 7 *)
+Theorem C03_skippable_wrap_refuted :
+  skip_size 32 false (2 ^ 32 - 8) 100 = SOk 0 /\ skip_size 32 false (2 ^ 32 - 1) 100 = SOk 7 /\
+  skip_size 32 true (2 ^ 32 - 8) 100 = SErr /\ skip_size 32 true (2 ^ 32 - 1) 100 = SErr.
+Proof. exact skip_size_wrap_refuted. Qed.
+Print Assumptions C03_skippable_wrap_refuted.
+
+(* and why dropping it is invisible in a 64-bit build for inputs below 4 GiB (mutation table of round 1) *)
+Theorem C03_skippable_check_redundant_64 : forall u n, u < 2 ^ 32 -> n < 2 ^ 32 -> skip_size 64 false u n = skip_size 64 true u n.
+Proof. exact skip_size_check_redundant_64. Qed.
+Print Assumptions C03_skippable_check_redundant_64.
+
+(* ZSTD_readSkippableFrame copies exactly the u content bytes: inside the input behind the header, inside the destination *)
+Theorem C03_read_skippable_inside : forall W u n cap c, 32 <= W -> u < 2 ^ 32 -> n < 2 ^ W ->
+  read_skip W true u n cap = SOk c -> c = u /\ c <= cap /\ SKIPHDR + c <= n.
+Proof. exact read_skip_inside. Qed.
+Print Assumptions C03_read_skippable_inside.
+
+Example C03_skippable_examples :
+  skip_size 64 true 5 13 = SOk 13 /\ skip_size 64 true 5 12 = SErr /\ skip_size 64 true 0 8 = SOk 8 /\ read_skip 64 true 5 13 5 = SOk 5 /\
+  read_skip 64 true 5 13 4 = SErr /\ skip_size 64 true (2 ^ 32 - 8) 100 = SErr /\ skip_size 64 false (2 ^ 32 - 8) 100 = SErr.
+Proof. exact skip_examples. Qed.
 
 (* ---- the limits of the model are the limits of the current sources ---- *)
 Theorem C03_gen_consts_match_model :
